@@ -29,5 +29,9 @@ finally:
     subprocess.run(["git", "-C", "/repo", "checkout", "--", "."])
     subprocess.run(["git", "-C", "/repo", "clean", "-fdq", "--", "tests", "src"])
     shutil.rmtree(V + "/evidence"); shutil.copytree(bak + "/evidence", V + "/evidence"); shutil.rmtree(bak)
+    # the generated Lean files were last written from the patched tree: regenerate them from the restored one
+    for t in sorted(os.listdir(V + "/translate")):
+        if t.endswith(".py") and t not in ("common.py", "rustexpr.py"):
+            subprocess.run([sys.executable, t], cwd=V + "/translate", env=dict(os.environ, CAV_REPO="/repo"), capture_output=True)
 caught = [p for p, (rc, _) in res.items() if rc != 0]
 print("CAUGHT-BY:", ",".join(caught) if caught else "none")
